@@ -100,7 +100,9 @@ EXTRA = {'c01': {'HollowRhombicCode': {'quick': [(3, 5, 3), (4, 5, 4), (3, 6, 6)
                  'RotatedPlanar3DCode': {'quick': [(7, 2, 2)], 'thorough': [(7, 2, 2), (9, 3, 3)]},
                  'Toric3DCode': {'quick': [(7, 2, 2)], 'thorough': [(7, 2, 2), (8, 3, 3)]},
                  'XCubeCode': {'quick': [(6, 2, 2)], 'thorough': [(6, 2, 2), (7, 3, 2)]},
-                 'RhombicPlanarCode': {'quick': [(6, 2, 2)], 'thorough': [(6, 2, 2), (7, 3, 2)]}}}
+                 'RhombicPlanarCode': {'quick': [(6, 2, 2)], 'thorough': [(6, 2, 2), (7, 3, 2)]},
+                 # one odd and one long even dimension: the listed logical Z is a membrane of Y operators there
+                 'RotatedToric3DCode': {'quick': [(3, 8, 2), (8, 3, 2)], 'thorough': [(3, 8, 2), (8, 3, 2), (3, 10, 3), (10, 3, 2), (5, 12, 2)]}}}
 
 
 def instances(tier, only=None, extra=False):
